@@ -383,8 +383,8 @@ fn execute_here(threads: &[Vec<Call>], prefix: &[usize]) -> Execution {
         if g.status.iter().all(|s| *s == Status::Finished) || g.abort.is_some() {
             break;
         }
-        if g.last_progress.elapsed() > Duration::from_secs(5) {
-            g.abort = Some("watchdog: no scheduling point reached for 5 s (unmodelled blocking?)".into());
+        if g.last_progress.elapsed() > Duration::from_secs(15) {
+            g.abort = Some("watchdog: no scheduling point reached for 15 s (unmodelled blocking?)".into());
             sched.cv.notify_all();
             break;
         }
